@@ -402,14 +402,24 @@ impl<'a> TryFrom<&'a str> for ExtXDateRange<'a> {
                     }
                 }
                 "DURATION" => {
-                    duration = Some(Duration::from_secs_f64(
-                        value.parse().map_err(|e| Error::parse_float(value, e))?,
-                    ));
+                    duration = Some(
+                        Duration::try_from_secs_f64(
+                            value.parse().map_err(|e| Error::parse_float(value, e))?,
+                        )
+                        .map_err(|e| {
+                            Error::custom(format!("invalid duration {:?}: {}", value, e))
+                        })?,
+                    );
                 }
                 "PLANNED-DURATION" => {
-                    planned_duration = Some(Duration::from_secs_f64(
-                        value.parse().map_err(|e| Error::parse_float(value, e))?,
-                    ));
+                    planned_duration = Some(
+                        Duration::try_from_secs_f64(
+                            value.parse().map_err(|e| Error::parse_float(value, e))?,
+                        )
+                        .map_err(|e| {
+                            Error::custom(format!("invalid duration {:?}: {}", value, e))
+                        })?,
+                    );
                 }
                 "SCTE35-CMD" => scte35_cmd = Some(unquote(value)),
                 "SCTE35-OUT" => scte35_out = Some(unquote(value)),
